@@ -467,6 +467,16 @@ def apply_fn_rules(fn, d, log):
         body = pat.sub(sub["repl"], body)
         sig = pat.sub(sub["repl"], sig)
         log.append({"rule": "T6/" + sub["id"], "fn": d["name"], "count": total})
+    # T5 looptop: ghost lines at the very start of the k-th loop's body (position based: robust against moved statements)
+    if d.get("looptops"):
+        pos = loop_positions(body)
+        for k in sorted(d["looptops"], reverse=True):
+            if k > len(pos):
+                raise ExtractError("looptop anchor #%d lost in %s (only %d loops)" % (k, d["name"], len(pos)))
+            txt = "\n".join(l + " // vx-hint" if l.strip() else l for l in d["looptops"][k])
+            check_injection(txt, "%s looptop %d" % (d["name"], k))
+            body = body[:pos[k - 1] + 1] + "\n" + txt + "\n" + body[pos[k - 1] + 1:]
+            log.append({"rule": "T5/looptop", "fn": d["name"], "loop": k})
     # T5 loop specs (apply from last to first so that offsets stay valid)
     if d["loops"]:
         pos = loop_positions(body)
@@ -506,7 +516,7 @@ def apply_fn_rules(fn, d, log):
         lines[at:at] = txt.split("\n")
         body = "\n".join(lines)
         log.append({"rule": "T5/" + inj["where"], "fn": d["name"], "regex": inj["regex"], "k": inj["k"]})
-    body = body.replace(" //@inj", "")
+    body = body.replace(" //@inj", " // vx-hint")
     if d.get("top"):
         txt = "\n".join(d["top"])
         check_injection(txt, d["name"] + " top")
@@ -644,6 +654,8 @@ class Unit:
                         d["subs"].append({"id": rid, "regex": body[0].strip(), "repl": body[1].strip(), "count": kv.get("count", "1")})
                     elif kind == "loop":
                         d["loops"][int(sec[1].split()[0])] = buf[:]
+                    elif kind == "looptop":
+                        d.setdefault("looptops", {})[int(sec[1].split()[0])] = buf[:]
                     elif kind in ("before", "after", "hint_before", "hint_after"):
                         k, rx = sec[1].split(None, 1)
                         d["injects"].append({"where": kind.replace("hint_", ""), "k": 0 if k == "*" else int(k), "regex": rx.strip(),
@@ -665,6 +677,16 @@ class Unit:
                 else:
                     raise ExtractError("//@fn %s without //@endfn" % d.get("name"))
                 self.do_fn(d)
+            elif st.startswith("//@assume_text "):
+                # the text an ASSUMED contract is about (e.g. serde attributes whose derive output is trusted) must be what was assumed
+                kv = parse_kv(st[len("//@assume_text "):])
+                rx = lines[i + 1].strip()
+                src = self.src(kv["file"])
+                n = len(re.findall(rx, src.text, flags=re.S))
+                if n != int(kv["count"]):
+                    raise ExtractError("assumed text /%s/ occurs %d times in %s, expected %s: the trusted assumption no longer covers this source" % (rx, n, kv["file"], kv["count"]))
+                self.log.append({"rule": "A/assume_text", "file": kv["file"], "regex": rx, "count": n})
+                i += 2
             elif st.startswith("//@"):
                 raise ExtractError("unknown directive: " + st)
             else:
